@@ -1,0 +1,24 @@
+//go:build verif
+
+package internal
+
+import (
+	"io"
+	"regexp"
+
+	"github.com/maruel/panicparse/v2/stack"
+)
+
+// Hook for the verification harness under /verif. It only gives access to
+// the unexported text renderer; it is compiled with -tags verif only and adds
+// no behaviour.
+
+// VerifRenderText renders one snapshot as pp does in text mode without
+// colors: buckets for a goroutine dump, goroutines for a race report.
+func VerifRenderText(out io.Writer, s stack.Similarity, full bool, filter, match *regexp.Regexp, c *stack.Snapshot) error {
+	pf := basePath
+	if full {
+		pf = fullPath
+	}
+	return processInner(out, &Palette{}, s, pf, "", filter, match, c, true)
+}
